@@ -18,8 +18,8 @@ class C13(Prop):
     ID = "C13"
     RULE = ("every PDA of PDA(2 states, stack {Z,X}, pushes <= 2, <= t transitions, any final set) and of PDA(1 state, 3 transitions) modulo swapping the input "
             "letters (nondeterministic, epsilon moves, stack-growing epsilon cycles, no final states, start symbol never "
-            "consumed are all in the family) and every grammar of CFG(2,2,2,<=3); plain names and the library's reserved "
-            "fresh names; non-trivial = some accepted word")
+            "consumed are all in the family) and every grammar of CFG(2,2,2,<=3); plain names, the library's reserved "
+            "fresh names and values of different types with one spelling (0 and '0'); non-trivial = some accepted word")
     BOUNDS = "2 states (3 thorough), 2 stack symbols, pushes <= 2 (3 thorough), <= 2 transitions (3 thorough); all words <= 3 (4 thorough)"
     CLAUSES = ["C13.to_pda.lang", "C13.to_cfg.lang", "C13.to_cfg.contains", "C13.to_final_state.lang",
                "C13.to_empty_stack.lang", "C13.to_empty_stack.to_cfg.lang", "C13.to_final_state.to_empty_stack.lang", "C13.operand_unchanged", "C13.*.terminates", "C13.*.no_foreign_exception"]
